@@ -163,14 +163,15 @@ func main() {
 		selftest = thoroughExtras(run, p, abs, vdir, !*noSelf)
 	}
 	if *quiet {
-		code := run.finishQuiet()
+		code := run.finishQuiet(vdir)
 		os.Exit(code)
 	}
 	os.Exit(run.finish(p.Meta, vdir, start, seed, selftest))
 }
 
 // finishQuiet prints the reports without touching evidence (sub-runs).
-func (r *Run) finishQuiet() int {
+func (r *Run) finishQuiet(vdir string) int {
+	known, _, _ := loadKnown(filepath.Join(vdir, "known_findings.txt"))
 	rules := make([]string, 0, len(r.floors))
 	for k := range r.floors {
 		rules = append(rules, k)
@@ -183,6 +184,17 @@ func (r *Run) finishQuiet() int {
 	}
 	code := 0
 	for _, o := range r.Obs {
+		if o.Verdict == Violated {
+			isKnown := false
+			for _, k := range known {
+				if k.Property == r.Property && k.Rule == o.Rule && k.Construct == strings.ReplaceAll(o.Construct, " ", "_") {
+					isKnown = true
+				}
+			}
+			if isKnown {
+				continue
+			}
+		}
 		if o.Verdict != Holds {
 			fmt.Printf("REPORT\t%s\t%s\t%s\t%s\t%s\n", o.Rule, o.Construct, o.Verdict, o.Site, o.Detail)
 			code = 1
